@@ -48,6 +48,36 @@ fn approve(w: &mut World, token_program: &Pubkey, token_account: &Pubkey, delega
     w.bank.process_native(&ix).is_ok()
 }
 
+/// An SPL Multisig account (355 bytes) created through the real InitializeMultisig2 of `prog`, whose signer keys are chosen so that
+/// its bytes read as the token account {mint, owner = attacker, amount 1, no delegate, state initialized, account type 2}.
+/// Possible whenever the mint key starts with a valid multisig header (m, n, 1).  Returns the world holding it and its key.
+fn forge_multisig(w: &World, prog: Pubkey, mint: &Pubkey, attacker: &Pubkey) -> Option<(World, Pubkey)> {
+    let mb = mint.to_bytes();
+    let (m, n) = (mb[0], mb[1] as usize);
+    if mb[2] != 1 || !(1..=11).contains(&n) || m == 0 || m as usize > n {
+        return None;
+    }
+    let mut d = [0u8; 355];
+    d[0..32].copy_from_slice(&mb);
+    d[32..64].copy_from_slice(&attacker.to_bytes());
+    d[64..72].copy_from_slice(&1u64.to_le_bytes());
+    d[108] = 1;
+    d[165] = 2;
+    let signers: Vec<Pubkey> = (0..n).map(|i| Pubkey::new_from_array(d[3 + 32 * i..35 + 32 * i].try_into().unwrap())).collect();
+    let refs: Vec<&Pubkey> = signers.iter().collect();
+    let mut wf = w.clone();
+    let k = wf.fresh_key();
+    wf.bank.set(k, crate::rt::Acct { lamports: 100_000_000, data: vec![0u8; 355], owner: prog, executable: false });
+    let ix = if prog == TOKEN { spl_token::instruction::initialize_multisig2(&TOKEN, &k, &refs, m).ok()? } else { spl_token_2022::instruction::initialize_multisig2(&TOKEN22, &k, &refs, m).ok()? };
+    wf.bank.process_native(&ix).ok()?;
+    let got = wf.bank.get(&k).data;
+    // the token program wrote exactly the crafted image (up to the signers it holds); it is a Multisig, not a token account
+    if got.len() != 355 || got[..3 + 32 * n] != d[..3 + 32 * n] || got[32..64] != attacker.to_bytes() {
+        return None;
+    }
+    Some((wf, k))
+}
+
 /// instructions for which a one-token delegate is a documented alternative to the holder and nothing else in the
 /// instruction needs the holder (positive control of the delegate path)
 const DELEGATE_POSITIVE: &[&str] = &["increase_liquidity", "decrease_liquidity", "increase_liquidity_v2", "decrease_liquidity_v2", "collect_fees", "collect_fees_v2", "collect_reward"];
@@ -173,6 +203,33 @@ pub fn check_world(spec: &RichSpec, l: &mut Local) -> Result<(), String> {
                         }
                     }
                 }
+                // forged proof of holding: a token-program-owned account of ANOTHER type (Multisig, created by the attacker through the
+                // real token program) whose bytes read as a token account holding one token of this position's mint
+                {
+                    let pmint = match &ent.class {
+                        Class::Position(p) => w.positions[*p].mint,
+                        Class::Bundle(b) => w.bundles[*b].mint,
+                        _ => unreachable!(),
+                    };
+                    for (pn, prog) in [("token", TOKEN), ("token2022", TOKEN22)] {
+                        match forge_multisig(w, prog, &pmint, &attacker_key) {
+                            Some((wf, forged)) => {
+                                let mut x = as_attacker.clone();
+                                let mut replaced = false;
+                                for m in x.accounts.iter_mut() {
+                                    if m.pubkey == tok_account {
+                                        m.pubkey = forged;
+                                        replaced = true;
+                                    }
+                                }
+                                if replaced {
+                                    mutant(&format!("forged_multisig_read_as_position_token/{pn}"), &wf, &x, true, l)?;
+                                }
+                            }
+                            None => l.count("forged_multisig_not_constructible"),
+                        }
+                    }
+                }
                 // delegates with amount 0 / 1 / 2
                 for n in [0u64, 1, 2] {
                     let mut wd = w.clone();
@@ -236,7 +293,7 @@ pub fn def() -> CheckDef {
         id: "C04",
         rule: "a generated world holding every kind of object (2 configs with extension and token badge, static and adaptive pools over SPL / Token-2022 mints, plain, \
                token-extension, locked, empty and bundled positions, rewards, owed fees); the complete table of privileged instructions (both dispatch paths) is \
-               enumerated on every world: baseline call must succeed, then mutants: right key without signature, another key signing with its own token accounts (and with the position / bundle token of its OWN position), \
+               enumerated on every world: baseline call must succeed, then mutants: right key without signature, another key signing with its own token accounts (and with the position / bundle token of its OWN position, and with a forged proof of holding: an SPL Multisig created through the real token program (either one) whose bytes read as a token account with one token of the position's mint), \
                an outsider signing while one program-owned account slot names a sibling object whose recorded authority the outsider is, \
                every other role's authority, delegate approved through the real token program with amount 0 / 1 / 2, position (bundle) token moved to another \
                holder (old holder must fail; new holder and 1-token delegate are positive controls).  Distinct non-trivial = (instruction, mutant kind, world).",
